@@ -97,6 +97,8 @@ def to_sexp(e):
         return f"(slc {to_sexp(e[1])} {e[2]} {e[3]})"
     if k == "rsz":
         return f"(rsz {to_sexp(e[1])} {e[2]})"
+    if k == "conv":
+        return f"(conv {to_sexp(e[1])} {ty_str(e[2])})"
     if k == "rszz":
         # x.resize(w, zeros=z): z zero bits appended on the right, then extended to w = (x resized to w) << z
         return f"(shl (rsz {to_sexp(e[1])} {e[2]}) (i {e[3]}))"
@@ -187,6 +189,8 @@ def to_py(e):
         return f"{to_py(e[1])}.bitvector"
     if k == "rsz":
         return f"{to_py(e[1])}.resize({e[2]})"
+    if k == "conv":
+        return to_py(e[1])  # implicit: the conversion happens because the target (output port) has another type
     if k == "rszz":
         return f"{to_py(e[1])}.resize({e[2]}, zeros={e[3]})"
     if k == "truth":
@@ -233,13 +237,15 @@ def children(e):
         return [e[3], e[4], e[5]]
     if k in ("any", "all"):
         return list(e[1])
+    if k == "conv":
+        return [e[1]]
     if k == "sel":
         return [e[1]] + [v for _, v in e[2]] + ([e[3]] if e[3] is not None else [])
     return [x for x in e[1:] if isinstance(x, tuple) and x and isinstance(x[0], str) and x[0] in KINDS_]
 
 
 KINDS_ = {"p", "lit", "i", "sh", "ar", "bo", "inv", "neg", "abs", "cmp", "chain", "shl", "shr", "cat", "idx", "slc", "idxrt",
-          "sgn", "uns", "bv", "rsz", "rszz", "truth", "not", "and", "or", "any", "all", "ite", "sel"}
+          "sgn", "uns", "bv", "rsz", "rszz", "conv", "truth", "not", "and", "or", "any", "all", "ite", "sel"}
 
 
 def size(e):
@@ -257,6 +263,8 @@ def shape(e):
         return "lit-" + e[1][0]
     if k == "i":
         return "int" if e[1] >= 0 else "negint"
+    if k == "conv":
+        return f"conv-{e[2][0]}(" + shape(e[1]) + ")"
     head = k + ("-" + e[1] if k in ("ar", "bo", "cmp") else "") + (f"-{e[1]}-{e[2]}" if k == "chain" else "")
     return head + "(" + ",".join(shape(c) for c in children(e)) + ")"
 
@@ -1137,7 +1145,10 @@ def build_designs(ctx, n_designs, per_design, depth, small, maxw, clocked_ratio=
         add_shared(rng, g, shadows, exprs, rng.randint(0, 2))
         for _ in range(per_design):
             t = root_type(rng, maxw)
-            exprs.append(g.gen(t, rng.randint(1, depth)))
+            e = g.gen(t, rng.randint(1, depth))
+            if is_vec(t) and rng.random() < 0.25:
+                e, _ = root_convert(rng, g, e, t, maxw if not small else 8)
+            exprs.append(e)
         rng.shuffle(exprs)
         designs.append(DesignCase(ports, shadows, exprs, clocked, small))
     return designs
@@ -1198,6 +1209,68 @@ def slice_designs(ctx):
             exprs.append(g.gen(root_type(rng, 4), 2))
         rng.shuffle(exprs)
         out.append(DesignCase(ports, shadows, exprs, n % 3 == 2, True))
+    return out
+
+
+def conv_targets(t, maxw):
+    """types a result of type t may drive (implicit conversion on assignment, value / pattern preserving)"""
+    if t[0] == "u":
+        return [("u", w) for w in range(t[1] + 1, min(maxw, t[1] + 3) + 1)] + \
+               [("s", w) for w in range(t[1] + 1, min(maxw, t[1] + 3) + 1)] + [("bv", t[1])]
+    if t[0] == "s":
+        return [("s", w) for w in range(t[1] + 1, min(maxw, t[1] + 3) + 1)] + [("bv", t[1])]
+    if t[0] == "bv":
+        return [("u", t[1]), ("s", t[1])]
+    return []
+
+
+def has_conv(e):
+    return e[0] == "conv" or any(has_conv(c) for c in children(e))
+
+
+def root_convert(rng, g, e, t, maxw):
+    """let the result (or the arms of a root if-expression / select_with) drive a target of another type"""
+    if e[0] == "ite" and t[0] in ("u", "s") and rng.random() < 0.6:
+        # arms of different types, typed by the target: Unsigned[n] / Signed[m] arms into a wider Signed, ...
+        tgt = (rng.choice(["s", "s", "u"]), min(maxw, t[1] + rng.randint(1, 2)))
+        if tgt[1] > t[1]:
+            def arm():
+                kd = rng.choice(["u", "s"]) if tgt[0] == "s" else "u"
+                w = rng.randint(1, tgt[1] - 1) if kd == "u" and tgt[0] == "s" else rng.randint(1, tgt[1])
+                return ("conv", g.gen((kd, w), 1), tgt)
+            return ("ite", e[1], arm(), arm()), tgt
+    c = conv_targets(t, maxw)
+    if not c:
+        return e, t
+    tgt = rng.choice(c)
+    return ("conv", e, tgt), tgt
+
+
+def conversion_matrix(ctx):
+    """implicit conversion at the root of an expression, systematically: every source kind (port, arithmetic result,
+    view) x every legal target kind / width, if-expression and select_with arms of mixed signedness typed by the
+    target; widths 2-3 -> up to 5, ALL valuations (so operands with the most significant bit set), both contexts"""
+    out = []
+    for wa in ([3] if ctx.quick else [1, 2, 3, 4]):
+        ports = [("u", wa), ("s", wa), ("bv", wa), ("u", wa), BIT]
+        u, s_, v, u2, x = [("p", i, False, t) for i, t in enumerate(ports)]
+        srcs = [(u, ("u", wa)), (s_, ("s", wa)), (v, ("bv", wa)), (("ar", "add", u, ("i", 1)), ("u", wa)),
+                (("ar", "add", u, u2), ("u", wa)), (("ar", "sub", s_, ("i", 1)), ("s", wa)), (("inv", u), ("u", wa)),
+                (("uns", s_), ("u", wa)), (("ar", "mul", u, u2), ("u", 2 * wa))]
+        ex = []
+        for e, t in srcs:
+            for tgt in conv_targets(t, 64):
+                ex.append(("conv", e, tgt))
+        for w in (wa + 1, wa + 2):
+            tgt = ("s", w)
+            ex += [("ite", x, ("conv", u, tgt), ("conv", s_, tgt)), ("ite", x, ("conv", s_, tgt), ("conv", u, tgt)),
+                   ("ite", x, ("conv", u, tgt), ("conv", ("ar", "add", u2, ("i", 1)), tgt)),
+                   ("sel", x, [(0, ("conv", u, tgt)), (1, ("conv", s_, tgt))], None),
+                   ("sel", ("p", 3, False, ("u", wa)), [(0, ("conv", u, tgt))], ("conv", s_, tgt)),
+                   ("ite", x, ("conv", u, ("u", w)), ("conv", u2, ("u", w)))]
+        for clocked in (False, True):
+            for i in range(0, len(ex), 40):
+                out.append(DesignCase(ports, {}, ex[i:i + 40], clocked, True))
     return out
 
 
@@ -1333,7 +1406,11 @@ def shrink(ports, shadows, expr, clocked, vals, context=()):
     budget = 40
     while improved and budget > 0:
         improved = False
-        for c in children(best):
+        cands = list(children(best))
+        if best[0] == "conv":
+            # keep the implicit conversion while the converted expression shrinks (ill-typed candidates are skipped)
+            cands = [("conv", c, best[2]) for c in children(best[1])] + cands
+        for c in cands:
             if c[0] in ("i",):
                 continue
             budget -= 1
@@ -1373,6 +1450,8 @@ def run(ctx: Ctx):
     designs += slice_designs(ctx)
     # value semantics: named sub-expressions over Variables, Variables reassigned before the outputs use them
     designs += snapshot_designs(ctx)
+    # implicit conversion at the root of an expression / of if-expression and select_with arms
+    designs += conversion_matrix(ctx)
     # operand qualifier kinds (Port / Signal / Variable / Temporary / constant) per operand position
     designs += qualifier_matrix(ctx)
 
@@ -1432,8 +1511,8 @@ def run(ctx: Ctx):
             continue
         for k, (e, t) in enumerate(zip(d.exprs, d.types)):
             real = canon_real_type(d.c["types"].get(k))
-            if real in ("other:_MergedBranch",):
-                continue  # if-expression / select_with whose type is fixed by the assignment target
+            if real in ("other:_MergedBranch",) or has_conv(e):
+                continue  # the type recorded inside the compiler is the one BEFORE the implicit conversion  # if-expression / select_with whose type is fixed by the assignment target
             if real != ty_str(t):
                 n_type_diff += 1
                 ctx.report(f"result-type:{shape(e)}",
@@ -1607,7 +1686,7 @@ def report_value(ctx, d, e, bad):
     objs = "; ".join(f"f{j} = {to_py(d.shadows['shared'][j][0])}" for j in used)
     sig = f"value:{shape(small)}" + (f"|after:{shape(context[0])}" if context else "")
     return ctx.report(sig,
-               f"`{to_py(small)}`" + (f" (with {objs})" if objs else "") + (f", emitted after `{to_py(context[0])}`" if context else "") +
+               f"`{to_py(small)}`" + (f" driving a {ty_py(small[2])} target" if small[0] == "conv" else "") + (f" (with {objs})" if objs else "") + (f", emitted after `{to_py(context[0])}`" if context else "") +
                f" ({'clocked' if d.clocked else 'concurrent'}) on operand valuation {f['valuation']} "
                f"(ports {[ty_str(p) for p in d.ports]}): documented value {f['expected']}, emitted logic gives {f['observed']}",
                {"kind": "value", "ports": d.ports, "shadows": sj(d.shadows), "expr": small, "context": context, "clocked": d.clocked,
